@@ -123,6 +123,33 @@ def run(ctx):
             os.remove(f1)
         except OSError:
             pass
+    # cold start: the first calls of a fresh process come from several threads at once (lazy initialisation
+    # of anything shared by the default tokenizer would show here and nowhere else)
+    cold_jobs = [k for k in range(len(jobs)) if '"ok": [{' in base[k]][:4]
+    if cold_jobs:
+        fc = os.path.join(core.WORK, "c15", f"cold_{os.getpid()}.json")
+        json.dump([jobs[k] for k in cold_jobs], open(fc, "w"))
+        cps = [subprocess.Popen([core.PY, "-m", "harness.c15_worker", fc, f"--threads={nthreads}"], cwd=core.VERIF,
+                                env=core.env_for_python(), stdout=subprocess.PIPE, stderr=subprocess.DEVNULL, text=True)
+               for nthreads in ([2, 4, 4, 8] * (3 if th else 1))]
+        for p_ in cps:
+            out, _ = p_.communicate(timeout=900)
+            per = {}
+            for line in out.strip().split("\n"):
+                if "\t" in line:
+                    k_, v_ = line.split("\t", 1)
+                    per.setdefault(k_, []).append(v_)
+            if not per:
+                ctx.divergences.append(("harness", "cold-start thread worker printed nothing", None))
+            for k_, lines in per.items():
+                for jk, line in zip(cold_jobs, lines):
+                    ctx.count("cold-start threaded call (first calls of a fresh process)")
+                    if line != base[jk]:
+                        diff(f"when the first calls of a fresh process come from concurrent threads (thread {k_})", jobs[jk], line, base[jk])
+        try:
+            os.remove(fc)
+        except OSError:
+            pass
     # fresh processes under different hash seeds
     seeds = list(range(1, 33 if th else 9))
     procs = []
